@@ -279,6 +279,15 @@ func c17AddrCases(seed uint64, batch, n int, own *chaincfg.Params) []addrCase {
 		_, pub := btcec.PrivKeyFromBytes(h32)
 		out = append(out, addrCase{hex.EncodeToString(pub.SerializeCompressed()), nil, 0, "p2pk-compressed-hex"})
 		out = append(out, addrCase{hex.EncodeToString(pub.SerializeUncompressed()), nil, 0, "p2pk-uncompressed-hex"})
+		// a standard address of the configured network with blanks around it is not an address: what is stored and later
+		// decoded for paying is the string as given
+		for wi, ws := range [][2]string{{"", " "}, {" ", ""}, {"", "\n"}, {"\t", ""}, {"", "\r\n"}, {" ", " "}} {
+			base := good
+			if wi%2 == 1 {
+				base = p
+			}
+			out = append(out, addrCase{ws[0] + base + ws[1], nil, 0, "blank-padded-standard-address"})
+		}
 		out = append(out, addrCase{"", nil, 0, "empty"})
 		out = append(out, addrCase{hex.EncodeToString(h20), nil, 0, "junk-hex"})
 		out = append(out, addrCase{"bc1" + strings.Repeat("q", 3+r.Intn(60)), nil, 0, "junk-bech32"})
